@@ -220,9 +220,16 @@ fn c12_kmers(c: &mut Case) -> Result<(), String> {
 fn c12_exts(c: &mut Case) -> Result<(), String> {
     let e = c.idx as u8;
     let x = Exts::new(e);
-    ensure!(x.rc().val == exts_rc(e), "Exts::rc({:#04x}) = {:#04x}, expected {:#04x}", e, x.rc().val, exts_rc(e));
-    ensure!(x.complement().val == exts_complement(e), "Exts::complement({:#04x}) = {:#04x}", e, x.complement().val);
-    ensure!(x.reverse().val == exts_reverse(e), "Exts::reverse({:#04x}) = {:#04x}", e, x.reverse().val);
+    // the three operations in every order (a lazily built table must not depend on which came first)
+    let order = (c.idx / 3) % 6;
+    let perm: [usize; 3] = [[0, 1, 2], [0, 2, 1], [1, 0, 2], [1, 2, 0], [2, 0, 1], [2, 1, 0]][order as usize];
+    for op in perm {
+        match op {
+            0 => ensure!(x.rc().val == exts_rc(e), "Exts::rc({:#04x}) = {:#04x}, expected {:#04x} (call order {:?})", e, x.rc().val, exts_rc(e), perm),
+            1 => ensure!(x.complement().val == exts_complement(e), "Exts::complement({:#04x}) = {:#04x} (call order {:?})", e, x.complement().val, perm),
+            _ => ensure!(x.reverse().val == exts_reverse(e), "Exts::reverse({:#04x}) = {:#04x} (call order {:?})", e, x.reverse().val, perm),
+        }
+    }
     ensure!(x.rc().rc() == x, "Exts::rc not an involution on {:#04x}", e);
     // semantics against a k-mer: the extensions of rc(k) are the rc'd extensions
     let km = Kmer5::from_bytes(&[0, 1, 3, 2, 2]);
@@ -242,13 +249,15 @@ fn c12_exts(c: &mut Case) -> Result<(), String> {
 pub const RULE_C12: &str = "exhaustive group: all 256 extension sets (rc, complement, reverse vs bit-level model, involution, coherence with k-mer extension); sampled: one base string per case (lengths 0,1,2,31,32,33,63,64,65,95,96,97,127,128,129,160,192 half the time, else random <= 300; optionally reverse-palindromic) materialised as DnaString, DnaStringSlice at a random offset, rc'd slice, Lmer1/2/3/4/6 when it fits and a k-mer when the length is one of the 19 K values; laws: position/complement map, involution, value equality with the container built from the reversed complemented bases, i-th k-mer of rc == rc of (n-K-i)-th k-mer for 11 K types, min_rc/min_rc_flip/is_palindrome on both strands; k-mer group: all 19 types on palindromes, padded short palindromes, homopolymers and random values; distinct = hash(sequence)";
 
 pub fn run_c12(ctx: &Ctx) {
-    ctx.run_group("exts_exhaustive", 256, true, |c| c12_exts(c));
+    // 256 values x 6 call orders (case i: value i mod 256); fresh worker threads per group, so the first
+    // Exts operation executed on a thread varies between rc, complement and reverse
+    ctx.run_group("exts_exhaustive", 256 * 6 * 3, true, |c| c12_exts(c));
     let n = ctx.n(300_000, 15_000_000);
     ctx.run_group("strings", n, false, |c| c12_case(c));
     let nk = ctx.n(950_000, 47_500_000);
     ctx.run_group("kmers", nk, false, |c| c12_kmers(c));
     if !ctx.is_miri() {
-        ctx.require("exts_values", 256);
+        ctx.require("exts_values", 256 * 6 * 3);
         ctx.require("kmer_commutation_checks", 100_000);
         ctx.require("strings_multiple_of_32", 1000);
         ctx.require("strings_longer_than_65000", 50);
